@@ -65,17 +65,15 @@ func c36Handler(w http.ResponseWriter, r *http.Request) {
 	}
 	variant, _ := strconv.Atoi(r.Header.Get("X-Var"))
 	for pos, op := range strings.Split(prog, ",") {
+		if strings.HasPrefix(op, "wh") {
+			code, err := strconv.Atoi(op[2:])
+			if err != nil {
+				panic("c36: bad op " + op)
+			}
+			w.WriteHeader(code)
+			continue
+		}
 		switch op {
-		case "wh103":
-			w.WriteHeader(103)
-		case "wh200":
-			w.WriteHeader(200)
-		case "wh204":
-			w.WriteHeader(204)
-		case "wh404":
-			w.WriteHeader(404)
-		case "wh500":
-			w.WriteHeader(500)
 		case "xa1":
 			w.Header().Add("X-A", "v1")
 		case "xa2":
@@ -246,16 +244,25 @@ func c36Eq(a, b []string) bool {
 // structural labels of a program (used in violation keys so that a finding is identified by
 // the shape of the handler behaviour, not by one program)
 func c36Labels(prog []string) string {
-	committed, info, lateHdr, lateInfo := false, false, false, false
+	committed, info, lateHdr, lateInfo, sw101 := false, false, false, false, false
 	for _, op := range prog {
-		switch op {
-		case "wh103":
-			if committed {
+		if strings.HasPrefix(op, "wh") {
+			code, _ := strconv.Atoi(op[2:])
+			switch {
+			case code >= 100 && code <= 199 && code != 101 && committed:
 				lateInfo = true
-			} else {
+			case code >= 100 && code <= 199 && code != 101:
 				info = true
+			default:
+				if code == 101 {
+					sw101 = true
+				}
+				committed = true
 			}
-		case "wh200", "wh204", "wh404", "wh500", "wa", "wb", "we", "fl":
+			continue
+		}
+		switch op {
+		case "wa", "wb", "we", "fl":
 			committed = true
 		case "xa1", "xa2", "ct":
 			if committed {
@@ -272,6 +279,9 @@ func c36Labels(prog []string) string {
 	}
 	if lateInfo {
 		l = append(l, "1xx-after-commit")
+	}
+	if sw101 {
+		l = append(l, "101")
 	}
 	if len(l) == 0 {
 		return "plain"
@@ -391,6 +401,7 @@ type c36Req struct {
 	Host    string `json:"host"`
 	Opt     []int  `json:"opt"`
 	Body    string `json:"body"`
+	Norm    bool   `json:"normalize"`
 	Bytes   string `json:"bytes"`
 }
 
@@ -445,6 +456,7 @@ func TestVerifC36Requests(t *testing.T) {
 	vfOpen(t)
 	defer vfDone()
 	ln := fasthttputil.NewInmemoryListener()
+	lnRaw := fasthttputil.NewInmemoryListener() // server that keeps header names as received
 	got := make(chan c36Conv, 1)
 	srv := &fasthttp.Server{Logger: c36NullLogger{}, Handler: func(ctx *fasthttp.RequestCtx) {
 		var r http.Request
@@ -454,10 +466,12 @@ func TestVerifC36Requests(t *testing.T) {
 		}
 		got <- c36Snap(&r)
 	}}
+	srvRaw := &fasthttp.Server{Logger: c36NullLogger{}, Handler: srv.Handler, DisableHeaderNamesNormalizing: true}
 	var wg sync.WaitGroup
-	wg.Add(1)
+	wg.Add(2)
 	go func() { defer wg.Done(); srv.Serve(ln) }()
-	defer func() { ln.Close(); wg.Wait() }()
+	go func() { defer wg.Done(); srvRaw.Serve(lnRaw) }()
+	defer func() { ln.Close(); lnRaw.Close(); wg.Wait() }()
 
 	evals, nontriv := 0, 0
 	vfEachLine(t, os.Getenv("VERIF_IN2"), func(line []byte) {
@@ -474,7 +488,11 @@ func TestVerifC36Requests(t *testing.T) {
 		}
 		want := c36Snap(hr)
 		// real code: the same bytes through a fasthttp server into ConvertRequest
-		c, err := ln.Dial()
+		useLn := ln
+		if !q.Norm {
+			useLn = lnRaw
+		}
+		c, err := useLn.Dial()
 		if err != nil {
 			vfInfra("dial: " + err.Error())
 			return
@@ -540,8 +558,8 @@ func TestVerifC36Requests(t *testing.T) {
 		}
 		if len(diff) > 0 {
 			shape := fmt.Sprintf("%s|%s|body=%s", q.Version, map[bool]string{true: "absolute-form", false: "origin-form"}[strings.HasPrefix(q.Target, "http")], q.Body)
-			c36Viol("request:"+strings.Join(diff, "+")+"|"+shape, fmt.Sprintf("request %q: %s", q.Bytes, strings.Join(det, "; ")),
-				vfRec{"bytes": q.Bytes, "nethttp_header": c36HeaderStr(want.header), "adaptor_header": c36HeaderStr(have.header)})
+			c36Viol("request:"+strings.Join(diff, "+")+"|"+shape, fmt.Sprintf("request %q (server normalizes header names: %v): %s", q.Bytes, q.Norm, strings.Join(det, "; ")),
+				vfRec{"bytes": q.Bytes, "normalize": q.Norm, "nethttp_header": c36HeaderStr(want.header), "adaptor_header": c36HeaderStr(have.header)})
 		} else if len(q.Opt) > 2 {
 			vfSample(vfRec{"bytes": q.Bytes})
 		}
